@@ -109,10 +109,33 @@ def check_property(prop, tier, seed, learn=False):
             syn_results.append(r)
     real = [o for o in obls if o.kind != "canary"]
     canaries = [o for o in obls if o.kind == "canary"]
-    vacuous = [o for o in canaries if o.status == "proved"]
+    # `False` provable right after the preconditions = vacuous contract (checker error).  `False` provable at the end of one
+    # path only means that this path is infeasible (dead branch); it is an error only if *every* path end of a unit is.
+    vacuous = [o for o in canaries if o.status == "proved" and o.label == "pre"]
+    by_unit = {}
+    for o in canaries:
+        if o.label != "pre":
+            by_unit.setdefault(o.unit, []).append(o)
+    for uname, cs in by_unit.items():
+        if cs and all(o.status == "proved" for o in cs):
+            vacuous += cs
+    dead_paths = [o for o in canaries if o.status == "proved" and o not in vacuous]
     failing = [o for o in real if o.status != "proved"]
     syn_fail = [r for r in syn_results if not r["ok"]]
-    kf = [k for k in known_findings() if k.get("property") == prop and k.get("status") == "known"]
+    kf = []
+    for k in known_findings():
+        if k.get("property") == prop and k.get("status") == "known":
+            # a known finding suppresses its obligation only while its recorded witness still fails on the real code
+            w = k.get("witness")
+            if w:
+                try:
+                    rc = subprocess.call(["/venv/bin/python", os.path.join(ROOT, w)], stdout=subprocess.DEVNULL, stderr=subprocess.DEVNULL, timeout=120)
+                except Exception:
+                    rc = -1
+                if rc != 1:
+                    print("NOTE: the witness of known finding %s no longer reproduces (exit %s); the entry is ignored" % (k["obligation"], rc))
+                    continue
+            kf.append(k)
     known_hit, new_fail = {}, []
     for o in failing:
         hit = None
@@ -207,7 +230,7 @@ def check_property(prop, tier, seed, learn=False):
             "field_types_inferred_from_source": sorted(inferred),
             "known_finding_obligations": {k: len(v[1]) for k, v in known_hit.items()},
             "undecided": undecided,
-            "vacuity_canaries": {"checked": len(canaries), "provable_false": len(vacuous)},
+            "vacuity_canaries": {"checked": len(canaries), "provable_false": len(vacuous), "infeasible_paths": len(dead_paths)},
             "samples": samples,
             "explanation": "every obligation is a z3 query generated from the current /repo source of the listed functions; "
                            "'discharged' counts unsat answers only",
